@@ -139,14 +139,14 @@ func genC35(t *rapid.T) c35Scenario {
 	s.LogLevel = rapid.SampledFrom([]string{"warn", "warn", "info", "debug"}).Draw(t, "loglevel")
 	s.StressMode = rapid.SampledFrom([]string{"never", "monitor", "always"}).Draw(t, "stress")
 	s.ReloadMs = rapid.SampledFrom([]int{0, 150, 400}).Draw(t, "reloadms")
-	// About a third of the scenarios are "drop heavy": tiny dropped/kept caches,
+	// About half of the scenarios are "drop heavy": tiny dropped/kept caches,
 	// a sampler that drops almost everything and producers of distinct short
 	// traces, so that the sample-cache maintenance paths (future filter
 	// creation at 50% load, filter cycling, LRU eviction, SetNextCapacity/Resize
 	// on reload) run while decisions keep flowing. Every effective reload
 	// restarts the cache's 1 s maintenance ticker, so these scenarios last
 	// longer and only one actor reloads, at most every 1.2 s.
-	s.DropHeavy = rapid.IntRange(0, 2).Draw(t, "dropheavy") == 0 || os.Getenv("VERIF_C35_ONLY_DROPHEAVY") != "" // (knob for tuning runs)
+	s.DropHeavy = rapid.IntRange(0, 1).Draw(t, "dropheavy") == 0 || os.Getenv("VERIF_C35_ONLY_DROPHEAVY") != "" // (knob for tuning runs)
 	if s.DropHeavy {
 		// 128..1024 per worker = 256..2048 filter slots: big enough not to
 		// saturate (>99%, the locked cycling path) within one maintenance tick,
@@ -577,7 +577,7 @@ func execC35(s c35Scenario) vkit.Result {
 func TestC35(t *testing.T) {
 	vkit.Run(t, vkit.Spec[c35Scenario]{
 		ID:   "C35",
-		Rule: "rapid-generated scenarios: 6-10 concurrently looping actor scripts over {batch/event/OTLP ingest for own and foreign traces, bursts of distinct one-span traces, peer-listener ingest, /query/*, /alive,/ready, config+rules file rewrite + Reload, stress mode flip via reload, membership churn via MockPeers.UpdatePeers, metrics reads + Prometheus scrape, VerifEject, Stop} against the full injected app (real fileConfig, routers, collector, StressRelief, DirectTransmissions, ConfigWatcher, LocalPubSub, MultiMetrics+Prometheus) in a -race child process; a third of the scenarios start drop-heavy with tiny SampleCache.DroppedSize/KeptSize so that the cuckoo filter maintenance (future filter at 50% load, cycling, SetNextCapacity/Resize) runs under traffic; every race report is normalised to its pair of top refinery frames. Non-trivial: the child finished, >=1 ingest request was accepted and >=2 of {reload, stress flip, churn, eject, stop} were executed. Distinct = distinct scenario JSON.",
+		Rule: "rapid-generated scenarios: 6-10 concurrently looping actor scripts over {batch/event/OTLP ingest for own and foreign traces, bursts of distinct one-span traces, peer-listener ingest, /query/*, /alive,/ready, config+rules file rewrite + Reload, stress mode flip via reload, membership churn via MockPeers.UpdatePeers, metrics reads + Prometheus scrape, VerifEject, Stop} against the full injected app (real fileConfig, routers, collector, StressRelief, DirectTransmissions, ConfigWatcher, LocalPubSub, MultiMetrics+Prometheus) in a -race child process; half of the scenarios start drop-heavy with tiny SampleCache.DroppedSize/KeptSize so that the cuckoo filter maintenance (future filter at 50% load, cycling, SetNextCapacity/Resize) runs under traffic; every race report is normalised to its pair of top refinery frames. Non-trivial: the child finished, >=1 ingest request was accepted and >=2 of {reload, stress flip, churn, eject, stop} were executed. Distinct = distinct scenario JSON.",
 		Assumptions: []string{
 			"the Go race detector only reports races on interleavings that actually occur; a silent scenario proves little (DESIGN section 6)",
 			"peer.MockPeers (refinery's own test double) stands in for the membership source; fake Honeycomb and fake peers are httptest servers in the child",
